@@ -769,6 +769,9 @@ def run(ctx):
         ctx.add_finding("R05-STAT", f.file, f.qual, f.construct, f.why, f.line)
     ctx.functions |= tmp.functions
     ctx.shortfalls += tmp.shortfalls
+    # the descent moves to a CHILD of the current cell: get_children() must return exactly the cells created by splitting that cell (C03's one-step lemma: no aliasing between a child list and a layer, parent/child links consistent)
+    from . import _partition
+    _partition.feed(ctx, (), rename={"R03-ALIAS": "R05-TREE", "R03-LINK": "R05-TREE"})
     return dict(
         explanation=(
             "For T-HOO, HCT and VHCT: (U) compute_u_value is summarised symbolically (two cases: never pulled -> infinite U; pulled -> "
